@@ -120,7 +120,7 @@ def chain_program_part(ctx):
     return engine.run_model_programs(ctx, "C14", ["Samples", "GateRun", "InterruptRun", "InterruptRunModel"], items)
 
 
-def cached_interrupt_part(ctx):
+def cached_interrupt_part(ctx, model=True):
     """Interrupts declared cache=True (documented: "a previously auto-resolved response is replayed without re-running the
     handler") on a runner with a cache, driven through histories of runs that pause, are answered - with DIFFERENT responses for
     equal inputs - or are answered by the handler: every run must end exactly as the same run on a runner without a cache
@@ -129,8 +129,11 @@ def cached_interrupt_part(ctx):
     from hypergraph import AsyncRunner, Graph
     from hypergraph.cache import InMemoryCache
     from hypergraph.nodes import FunctionNode, InterruptNode
+    from harness.common import Names, c_list, c_nat, c_Z, c_bool, c_opt
     rng = ctx.rng
     n = 0
+    items = []
+    MN = Names()
     for _ in range(ctx.n(40, 300)):
         auto = rng.choice([None, None, "auto"])
         cached = rng.random() < 0.8
@@ -147,6 +150,7 @@ def cached_interrupt_part(ctx):
                    FunctionNode(fb, name="B", output_name="b")])
         runner = AsyncRunner(cache=InMemoryCache())
         hist = []
+        real_codes, model_calls = [], []
         for step in range(rng.randint(2, 5)):
             inputs = {"x": rng.choice([1, 1, 2])}
             if rng.random() < 0.65:
@@ -162,9 +166,19 @@ def cached_interrupt_part(ctx):
             n += 1
             o1 = (got.status.value, dict(got.values), got.pause.node_name if got.pause else None)
             o2 = (ref.status.value, dict(ref.values), ref.pause.node_name if ref.pause else None)
+            # MODEL (CacheInterrupt.hist_obs): what the interrupt returned in this run of the history
+            st_code = {"completed": 0, "failed": 1, "paused": 2}.get(got.status.value, 9)
+            real_codes.append(f"({c_nat(st_code)}, {c_opt(got.values.get('d') if st_code == 0 else None, lambda v: pdl.c_val(MN, v))})")
+            model_calls.append(f"({c_Z(inputs['x'] + 1)}, {c_opt(inputs['d'], lambda v: pdl.c_val(MN, v)) if 'd' in inputs else 'None'})")
             if o1 != o2:
                 ctx.violation("oracle", f"run {len(hist)} of the history on a runner with a cache ended {o1}; without a cache it ends {o2}", case=case)
                 break
+        if real_codes:
+            handler_t = "VNone" if auto is None else pdl.c_val(MN, auto)
+            items.append(({"family": "cached_interrupt", "interrupt_cache": cached, "handler_returns": auto, "history": list(hist)}, 134, "hist_obs_eqb",
+                          f"hist_obs {c_bool(cached)} {handler_t} {c_list(model_calls)}", c_list(real_codes)))
+    if model and items:
+        n += engine.run_model_programs(ctx, ctx.prop_id, ["Samples", "Nested", "Cache", "CacheProofs", "CacheInterrupt"], items)
     return n
 
 
@@ -329,8 +343,18 @@ def run(ctx):
         msgs = []
         if obs["status"] == "paused":
             p = obs["pause"]
-            leaf = p["node"].split("/")[-1]
-            n = find_node(g, leaf)
+            comps = p["node"].split("/")
+            leaf = comps[-1]
+            # path-qualified through nesting: every prefix component is the NAME OF THE NODE (not of the inner graph) that holds the rest
+            cur, n = g, None
+            for c in comps[:-1]:
+                holder = next((m for m in cur["nodes"] if m["name"] == c and m["kind"] == "graph"), None)
+                if holder is None:
+                    msgs.append(f"pause names {p['node']!r}: {c!r} is not a nested-graph node of the graph that holds it "
+                                f"(nodes there: {[m['name'] for m in cur['nodes']]})")
+                    return msgs
+                cur = holder["graph"]
+            n = next((m for m in cur["nodes"] if m["name"] == leaf), None)
             if n is None or n["kind"] != "interrupt":
                 msgs.append(f"pause names {p['node']!r}, which is not an interrupt of the graph")
                 return msgs
